@@ -135,6 +135,12 @@ _HOSTILE = [";", "=", "%", "\t", "\n", "\r", " ", ">", "&", "'", "+", "#", "\\",
 _FILL = "abcXYZ019_-.:/()"
 
 
+def setup(ctx):
+    from bcv import core
+
+    core.codon_storm(ctx)
+
+
 def selftest():
     from bcv.core import HarnessError
 
